@@ -1,6 +1,6 @@
 """Development helper: dump / re-check one obligation."""
 import sys, time, z3
-from .run import verify_functions
+
 from . import solve
 
 def main():
